@@ -245,6 +245,11 @@ func spaceAfterToken(subject, before, after *Token) bool {
 		// significant and must survive formatting.
 		return after.SpacesBefore > 0
 
+	case subject.Type == hclsyntax.TokenDot && before.Type == hclsyntax.TokenNumberLit && after.Type == hclsyntax.TokenNumberLit:
+		// Likewise on the other side of the dot: number, dot and number
+		// written without any space would be scanned as a single number.
+		return after.SpacesBefore > 0
+
 	case subject.Type == hclsyntax.TokenDot || after.Type == hclsyntax.TokenDot:
 		// Don't use spaces around attribute access dots
 		return false
